@@ -1078,21 +1078,17 @@ example :
 
 /-- **C11_load_replaces_dict.** For EVERY prior dictionary `d0` of the receiving state (any user letters, any values) and every
 file written by a state with dictionary `d`: after a successful `load` the receiver's dictionary is EXACTLY `d` — the same
-names in the same order with the saved values; a letter the receiver had and the file lacks is gone, nothing is merged. -/
+names in the same order with the saved values; a letter the receiver had and the file lacks is gone, nothing is merged.
+(The content is conjunct 2, the dictionary clause of `C11_roundtrip` read for a receiver that HAD a dictionary `d0`; `d0` enters
+only through `st.ud = some _`. The former third conjunct "a name not among the keys of `d` is absent" was a corollary of
+conjunct 2 (`d' = d`) and has been dropped: `aget_none_iff`.) -/
 theorem C11_load_replaces_dict {h : Heap} (wf : HeapWF h) (fs : Files) (st : NState) (path : Nat) (file : File)
     (hf : fs path = some file) (ok : StateOK h st) (hc : Compatible h file st.nets)
     (d0 d : List (String × Tok)) (hd0 : st.ud = some (.ud d0)) (hd : aget file (.str "unitary_dict") = some (.ud d)) :
-    (load h fs st path).2.2 = none ∧ (load h fs st path).2.1.ud = some (.ud d) ∧
-    (∀ name, name ∉ keys d → ∀ d', (load h fs st path).2.1.ud = some (.ud d') → aget d' name = none) := by
+    (load h fs st path).2.2 = none ∧ (load h fs st path).2.1.ud = some (.ud d) := by
   obtain ⟨l1, _, l3⟩ := load_ok wf fs st path file hf ok hc
   have hud : (load h fs st path).2.1.ud = some (.ud d) := by rw [l3, hd0]; simp only [hd]
-  refine ⟨l1, hud, ?_⟩
-  intro name hn d' hd'
-  rw [hud] at hd'
-  injection hd' with hd'
-  injection hd' with hd'
-  subst hd'
-  exact (aget_none_iff d name).2 hn
+  exact ⟨l1, hud⟩
 
 /-- satisfiable and non-trivial: the receiver owns the extra letters `Q`, `R` (and its own `H`); the file has `X, Y, Z, H, K`:
 after the load the receiver has exactly the file's five entries with the file's `H` -/
